@@ -174,6 +174,30 @@ int main() {
         o << b_of(r.x) << " " << b_of(r.y) << " " << b_of(r.z) << " " << b_of(r.w);
         break;
       }
+      case 70:     // divRoundUp<T> at every standard integer width: a[0] = 0..7 = int8 uint8 int16 uint16 int32 uint32 int64 uint64
+        switch (a[0]) {
+          case 0: OUTR((long long), divRoundUp<int8_t>((int8_t)a[1], (int8_t)a[2])); break;
+          case 1: OUTR((long long), divRoundUp<uint8_t>((uint8_t)a[1], (uint8_t)a[2])); break;
+          case 2: OUTR((long long), divRoundUp<int16_t>((int16_t)a[1], (int16_t)a[2])); break;
+          case 3: OUTR((long long), divRoundUp<uint16_t>((uint16_t)a[1], (uint16_t)a[2])); break;
+          case 4: OUTR((long long), divRoundUp<int32_t>((int32_t)a[1], (int32_t)a[2])); break;
+          case 5: OUTR((long long), divRoundUp<uint32_t>((uint32_t)a[1], (uint32_t)a[2])); break;
+          case 6: OUTR((long long), divRoundUp<int64_t>((int64_t)a[1], (int64_t)a[2])); break;
+          default: OUTR((unsigned long long), divRoundUp<uint64_t>((uint64_t)ua[1], (uint64_t)ua[2])); break;
+        }
+        break;
+      case 71:     // clamp<T> at the same widths
+        switch (a[0]) {
+          case 0: OUTR((long long), clamp<int8_t>((int8_t)a[1], (int8_t)a[2], (int8_t)a[3])); break;
+          case 1: OUTR((long long), clamp<uint8_t>((uint8_t)a[1], (uint8_t)a[2], (uint8_t)a[3])); break;
+          case 2: OUTR((long long), clamp<int16_t>((int16_t)a[1], (int16_t)a[2], (int16_t)a[3])); break;
+          case 3: OUTR((long long), clamp<uint16_t>((uint16_t)a[1], (uint16_t)a[2], (uint16_t)a[3])); break;
+          case 4: OUTR((long long), clamp<int32_t>((int32_t)a[1], (int32_t)a[2], (int32_t)a[3])); break;
+          case 5: OUTR((long long), clamp<uint32_t>((uint32_t)a[1], (uint32_t)a[2], (uint32_t)a[3])); break;
+          case 6: OUTR((long long), clamp<int64_t>((int64_t)a[1], (int64_t)a[2], (int64_t)a[3])); break;
+          default: OUTR((unsigned long long), clamp<uint64_t>((uint64_t)ua[1], (uint64_t)ua[2], (uint64_t)ua[3])); break;
+        }
+        break;
       case 48: OUTR(b_of, clamp(f_of(a[0]))); break;        // defaulted bounds T(zero), T(one)
       case 49: OUTR(b_of64, clamp(d_of(ua[0]))); break;
       case 50:     // uniform_real_distribution<T> over generator a[0] of the family, T = float (a[1]==32) / double, sample a[4]
